@@ -374,6 +374,7 @@ def _check_body(ctx, res) -> None:
     dep = idx.need_func("rope.base.history._FindChangeDependencies._depends_on")
     pairs = set()
     sym = False
+    charwise = None
     for g in common.with_private_helpers(idx, dep):
         here = set()
         # read on the copy with one-expression helpers substituted (`_is_below(a, b) or _is_below(b, a)` is the same test)
@@ -384,10 +385,34 @@ def _check_body(ctx, res) -> None:
             if isinstance(c.func, ast.Attribute) and c.func.attr == "startswith" and len(c.args) == 1 and isinstance(c.args[0], ast.BinOp) \
                     and isinstance(c.args[0].op, ast.Add) and isinstance(c.args[0].right, ast.Constant) and c.args[0].right.value == "/":
                 here.add((norm(c.args[0].left), norm(c.func.value)))
+        # the same test component by component: `all(a == b for a, b in zip(p.split("/"), q.split("/")))` -- zip stops at the shorter list, so
+        # this is "one path is a prefix of the other, folder by folder" in both directions at once.  Zipping the path STRINGS compares
+        # characters: `mod.py` and `mod.pyi`, `pkg` and `pkg2/b.py` then "overlap"
+        gnode = common.inlined(idx, g)
+        unpacked = {}
+        for a_ in ast.walk(gnode):
+            if isinstance(a_, ast.Assign) and len(a_.targets) == 1:
+                if isinstance(a_.targets[0], ast.Tuple) and isinstance(a_.value, ast.Tuple) and len(a_.targets[0].elts) == len(a_.value.elts):
+                    for t_, v_ in zip(a_.targets[0].elts, a_.value.elts):
+                        if isinstance(t_, ast.Name):
+                            unpacked[t_.id] = v_
+                elif isinstance(a_.targets[0], ast.Name):
+                    unpacked[a_.targets[0].id] = a_.value
+        for c in ast.walk(gnode):
+            if isinstance(c, ast.Call) and call_name(c) == "zip" and len(c.args) == 2:
+                vals = [unpacked.get(a_.id, a_) if isinstance(a_, ast.Name) else a_ for a_ in c.args]
+                by_folder = all(isinstance(v, ast.Call) and call_name(v) == "split" and v.args and isinstance(v.args[0], ast.Constant) and v.args[0].value == "/" for v in vals)
+                if by_folder:
+                    a0, b0 = norm(vals[0].func.value), norm(vals[1].func.value)
+                    here |= {(a0, b0), (b0, a0)}
+                else:
+                    charwise = f"`{ast.unparse(c)}` pairs up the CHARACTERS of the two path strings, not their folders"
         pairs |= here
         sym = sym or any((b, a) in here for a, b in here)
-    res.add("R11.4", "_FindChangeDependencies._depends_on", bool(pairs) and sym, dep.where,
-            "containment is tested in both directions" if pairs and sym else
+    res.add("R11.4", "_FindChangeDependencies._depends_on", bool(pairs) and sym and not charwise, dep.where,
+            "containment is tested in both directions" if pairs and sym and not charwise else
+            (f"the dependency test {charwise}: a path that merely starts with the other one, without a `/` boundary (`mod.py` / `mod.pyi`, `pkg` / `pkg2/b.py`), counts as the same "
+             "resource or as lying below it -- a selective undo takes an independent later change of the sibling along") if charwise else
             "the dependency test checks containment in one direction only: a change to a file inside a later created/moved folder "
             "(or vice versa) is not recognised as dependent, so a selective undo leaves it in force")
 
